@@ -220,9 +220,13 @@ type vxOp struct {
 func VxC14IndexSemantics() {
 	steps := 3
 	if vx.Thorough() {
-		// (4 records exceed the 900 s harness budget; the thorough tier adds the permuted map orders)
-		vx.Bound("<= 3 committed records (entry | prune) with 64-bit symbolic heights over 2 WAL files, symbolic watermark; map iteration orders permuted")
-		vx.MapOrders(true)
+		// 3 records with every map iteration order exceed the path budget (200000): the thorough tier
+		// explores 3 records in insertion order and, separately, 2 records under every map order
+		vx.Bound("<= 3 committed records (entry | prune) with 64-bit symbolic heights over 2 WAL files, symbolic watermark; and <= 2 records with map iteration orders permuted")
+		if vx.Choice("variant", 2) == 1 {
+			steps = 2
+			vx.MapOrders(true)
+		}
 	} else {
 		vx.Bound("<= 3 committed records (entry | prune) with 64-bit symbolic heights over 2 WAL files, symbolic watermark")
 	}
